@@ -29,6 +29,9 @@ TEXT = {
  "C15": ("seeded deterministic simulation with cancellation/expiry instants chosen by the scheduler on a fake clock; oracle: codes of operations started after the instant",
          "Seeded search over cancellation instants relative to call progress (any scheduler step, incl. while a Send is blocked on a full window or a Receive on an empty body) and expiry instants on the simulated clock; only decidable with a controlled clock and scheduler. That the server-side context is cancelled is the stub's doing and is not claimed.",
          "5 C15"),
+ "C19": ("seeded deterministic simulation with handler crash (panic) injection; oracle: recovery function called exactly once with the value, client sees its error, abort sentinel re-raised",
+         "Seeded search over panic values x program points x kinds x protocols x interceptor positions under adversarial schedules; the panic is a crash fault injected into the handler task.",
+         "5 C19"),
 }
 
 hooks_commits = subprocess.run(["git", "-C", "/repo", "log", "--format=%H", "--grep=^verif:"], capture_output=True, text=True).stdout.split()
